@@ -56,7 +56,7 @@ TARGETS = [
     "sigma.types:SigmaString.__radd__",
 ]
 ALPH = ["a", "-", "/", " ", "*", "?", "\\", "%", ".", "é", "1"]
-TYPED = [5, -1, 1.5, True, False, None, "10.0.0.0/8", "a%b%", "-a -b", "x/y-z", "%a%%b%", "a -b*c -d"]
+TYPED = [5, -1, 1.5, True, False, None, "10.0.0.0/8", "a%b%", "-a -b", "x/y-z", "%a%%b%", "a -b*c -d", "a\\.*", "a\\$", "a\\\\.*"]
 SINGLES = sorted(R.KNOWN)
 PAIRS = [
     "contains|all", "all|contains", "windash|contains", "contains|windash", "windash|contains|all", "cased|contains", "contains|cased", "cased|endswith", "cased|startswith",
